@@ -189,6 +189,12 @@ Definition coin_clause (c : c03_case) (a : Z) (d : string) (b f : Z) : list stri
          approval had already been counted (a repeat must neither be paid nor counted again) *)
       let undue := if fresh then [] else if 0 <? full_share then
                      (if listed then ["custody-repeat-approval-rewarded"] else ["custody-reward-to-non-custodian"]) else [] in
+      (* a caller who is not on the custodian list IN FORCE (never was, or was removed / dropped)
+         can neither be paid nor complete a release, whatever the recorded votes say *)
+      if negb listed then
+        "custody-reward-to-non-custodian" ::
+        (if drop <=? amount_of reward d then [] else ["custody-release-by-non-custodian"])
+      else
       if custody_threshold fact then
         (* released: at most the requested amount plus the caller's reward share, and the
            requested amount arrives at the recorded beneficiary *)
